@@ -810,6 +810,55 @@ func writeTranslations(repo, outdir string, fset *token.FileSet, parse func(stri
 			allBad = append(allBad, bad...)
 		}
 	}
+	// internal/markers/markers.go: the projections and conversions (the two regexps are library calls:
+	// goReplaceMarkers / goReplaceEnvelopes in Model/GoPrelude.lean)
+	{
+		saved := methods
+		methods = nil
+		mconsts := map[string]string{
+			"RedactedS": leanBytes(markers.RedactedS), "RedactedBytes": leanBytes(string(markers.RedactedBytes)),
+			"EscapeMarkBytes": leanBytes(string(markers.EscapeMarkBytes)), "EscapeMarkS": leanBytes(markers.EscapeMarkS),
+			"StartS": leanBytes(markers.StartS), "EndS": leanBytes(markers.EndS),
+		}
+		mtypes := map[string]ltype{"RedactedS": tBytes, "RedactedBytes": tBytes, "EscapeMarkBytes": tBytes, "EscapeMarkS": tBytes, "StartS": tBytes, "EndS": tBytes}
+		for _, rn := range [][2]string{{"RedactableString", "StripMarkers"}, {"RedactableString", "Redact"}, {"RedactableString", "ToBytes"},
+			{"RedactableBytes", "StripMarkers"}, {"RedactableBytes", "Redact"}, {"RedactableBytes", "ToString"},
+			{"", "StartMarker"}, {"", "EndMarker"}, {"", "RedactedMarker"}, {"", "EscapeMarkers"}} {
+			ln := "M_" + rn[1]
+			if rn[0] == "RedactableString" {
+				ln = "MS_" + rn[1]
+			} else if rn[0] == "RedactableBytes" {
+				ln = "MB_" + rn[1]
+			}
+			emit("internal/markers/markers.go", rn[0], rn[1], ln, mconsts, mtypes)
+		}
+		methods = saved
+	}
+	// internal/rfmt/helpers.go: EscapeBytes
+	{
+		saved := methods
+		methods = nil
+		emit("internal/rfmt/helpers.go", "", "EscapeBytes", "EscapeBytes", bconsts, bctypes)
+		methods = saved
+	}
+	// api.go: the public wrappers around the functions above
+	{
+		saved := methods
+		methods = nil
+		trQCalls = map[string]lpCallee{
+			"m.StartMarker":    {lean: "M_StartMarker", rets: []ltype{tBytes}},
+			"m.EndMarker":      {lean: "M_EndMarker", rets: []ltype{tBytes}},
+			"m.RedactedMarker": {lean: "M_RedactedMarker", rets: []ltype{tBytes}},
+			"m.EscapeMarkers":  {lean: "M_EscapeMarkers", params: []ltype{tBytes}, rets: []ltype{tBytes}},
+			"ifmt.EscapeBytes": {lean: "EscapeBytes", params: []ltype{tBytes}, rets: []ltype{tBytes}},
+			"fw.MakeFormat":    {lean: "MakeFormat", params: []ltype{tFmtState, tInt}, rets: []ltype{tBool, tBytes}},
+		}
+		for _, n := range []string{"StartMarker", "EndMarker", "RedactedMarker", "EscapeMarkers", "EscapeBytes", "MakeFormat"} {
+			emit("api.go", "", n, "API_"+n, nil, nil)
+		}
+		trQCalls = map[string]lpCallee{}
+		methods = saved
+	}
 	// internal/rfmt/print.go: the number parsers of doPrintf's directive parser
 	{
 		f := parse("internal/rfmt/print.go")
